@@ -4,9 +4,6 @@ From OG Require Import C10.Model C10.Proofs C13.Model.
 Import ListNotations.
 Open Scope N_scope.
 
-Definition evalq (am : N -> N -> bool) (q : option expr) (ts : tagset) : bool :=
-  match q with None => true | Some e => eval am e ts end.
-Definition okq (q : option expr) : Prop := match q with None => True | Some e => expr_ok e end.
 
 Lemma nmem_iff x l : negb (mem x l) = true <-> ~ In x l.
 Proof.
